@@ -8,6 +8,8 @@ import (
 	"path/filepath"
 	"strings"
 	"sync"
+
+	"verif/sim/autoyield"
 )
 
 // builder compiles the child binaries from the current working tree of the repository into a scratch
@@ -41,16 +43,56 @@ func goEnv() []string {
 	return env
 }
 
+// autoRepo copies the repository under test (without .git and large binaries) into the scratch directory
+// and lets package autoyield turn every synchronisation operation of the PoW packages into a yield point.
+func (b *builder) autoRepo() (string, error) {
+	dst := filepath.Join(b.dir, "repo-auto")
+	src, _ := filepath.Abs(repoDir)
+	err := filepath.Walk(src, func(p string, info os.FileInfo, err error) error {
+		if err != nil {
+			return err
+		}
+		rel, _ := filepath.Rel(src, p)
+		if info.IsDir() {
+			if info.Name() == ".git" {
+				return filepath.SkipDir
+			}
+			return os.MkdirAll(filepath.Join(dst, rel), 0o755)
+		}
+		if !info.Mode().IsRegular() || info.Size() > 4<<20 {
+			return nil
+		}
+		data, err := os.ReadFile(p)
+		if err != nil {
+			return err
+		}
+		return os.WriteFile(filepath.Join(dst, rel), data, 0o644)
+	})
+	if err != nil {
+		return "", err
+	}
+	for _, pkg := range []string{"pkg/pow", "pkg/pow/v2"} {
+		if _, err := autoyield.Package(filepath.Join(dst, pkg)); err != nil {
+			return "", fmt.Errorf("auto-yield instrumentation: %w", err)
+		}
+	}
+	return dst, nil
+}
+
 // modfile writes a copy of sim/go.mod whose replace directive points at the repository under test.
 func (b *builder) modfile() (string, error) {
+	return b.modfileFor(repoDir, "go.mod")
+}
+
+func (b *builder) modfileFor(repo, name string) (string, error) {
 	simDir := filepath.Join(verifDir, "sim")
 	src, err := os.ReadFile(filepath.Join(simDir, "go.mod"))
 	if err != nil {
 		return "", err
 	}
-	abs, _ := filepath.Abs(repoDir)
+	abs, _ := filepath.Abs(repo)
 	out := strings.Replace(string(src), "=> /repo", "=> "+abs, 1)
-	mf := filepath.Join(b.dir, "go.mod")
+	mf := filepath.Join(b.dir, name)
 	if err := os.WriteFile(mf, []byte(out), 0o644); err != nil {
 		return "", err
 	}
@@ -58,7 +100,7 @@ func (b *builder) modfile() (string, error) {
 	if err != nil {
 		return "", err
 	}
-	return mf, os.WriteFile(filepath.Join(b.dir, "go.sum"), sum, 0o644)
+	return mf, os.WriteFile(strings.TrimSuffix(mf, ".mod")+".sum", sum, 0o644)
 }
 
 func flavourFlags(f string) []string {
@@ -69,6 +111,8 @@ func flavourFlags(f string) []string {
 		return []string{"-tags", "verif", "-race"}
 	case "purego":
 		return []string{"-tags", "verif,purego"}
+	case "auto":
+		return []string{"-tags", "verif,verifauto"}
 	}
 	panic("unknown flavour " + f)
 }
@@ -81,6 +125,12 @@ func (b *builder) binary(flavour string) (string, error) {
 		return p, nil
 	}
 	mf, err := b.modfile()
+	if flavour == "auto" {
+		var ar string
+		if ar, err = b.autoRepo(); err == nil {
+			mf, err = b.modfileFor(ar, "auto.mod")
+		}
+	}
 	if err != nil {
 		return "", err
 	}
